@@ -243,6 +243,25 @@ func runEncodeWorld(rc *RunCtx) (out *Outcome) {
 		}
 		o.probe("encoding re-checked after marshalling another message")
 	}
+	// a Clone is a message of its own: decoding into one, or appending to it, leaves the other alone
+	{
+		c1 := m.Clone()
+		c2 := c1.Clone()
+		if ch.Chance(1, 2, "clone decoded into") {
+			_ = c1.UnmarshalText([]byte("id: other\ndata: decoded into the clone\ndata: second line\n\n"))
+		} else {
+			c1.AppendData("appended to the clone")
+			c1.AppendComment("and a comment")
+		}
+		if got := c2.String(); got != string(full) {
+			o.violate("C15", "clone-not-independent", "message %s: after its clone was reused, a second clone encodes as %q instead of %q", desc, got, full)
+			return o
+		}
+		if got := m.String(); got != string(full) {
+			o.violate("C15", "clone-not-independent", "message %s: after its clone was reused, the message itself encodes as %q instead of %q", desc, got, full)
+			return o
+		}
+	}
 	hasField := m.ID.IsSet() || m.Type.IsSet() || m.Retry.Milliseconds() > 0
 	for _, op := range ops {
 		if (op.Kind == "AppendData" || op.Kind == "AppendComment") && op.Arg != "" {
